@@ -41,6 +41,34 @@ DOCS = [
 NS = {'p': U1}
 SCHEMA = xmlschema.XMLSchema10(_XSD)
 
+# Template B: a no-namespace vocabulary whose schema document uses the XSD namespace as its default namespace (the usual
+# <schema xmlns="http://www.w3.org/2001/XMLSchema"> style), instances without any xmlns declaration, and an identity
+# constraint on an intermediate, repeated parent.
+_XSD_B = """<schema xmlns="http://www.w3.org/2001/XMLSchema">
+ <element name="root"><complexType><sequence>
+   <element name="group" maxOccurs="unbounded"><complexType><sequence>
+      <element name="item" maxOccurs="unbounded"><complexType><simpleContent><extension base="int"><attribute name="k" type="int"/></extension></simpleContent></complexType></element>
+     </sequence></complexType>
+     <unique name="u"><selector xpath="item"/><field xpath="@k"/></unique></element>
+ </sequence></complexType></element></schema>"""
+DOCS_B = [
+    '<root><group><item k="1">1</item><item k="2">2</item></group><group><item k="1">3</item><item k="3">4</item></group></root>',            # valid
+    '<root><group><item k="1">1</item><item k="2">x</item></group><group><item k="1">3</item><item k="1">4</item></group><group><item k="5">5</item><item k="5">6</item></group></root>',
+]
+SCHEMA_B = xmlschema.XMLSchema10(_XSD_B)
+
+
+def _schema():
+    return SCHEMA_B if CFG.get("tpl") == "B" else SCHEMA
+
+
+def _docs():
+    return DOCS_B if CFG.get("tpl") == "B" else DOCS
+
+
+def _ns():
+    return {} if CFG.get("tpl") == "B" else NS
+
 
 def configure(cfg):
     CFG.update(cfg)
@@ -64,8 +92,13 @@ def _steps(root, elem):
 
 def _spell(steps, variant):
     def name(tag, prefixed=True):
+        if '}' not in tag:
+            return tag
         local = tag.split('}')[1]
         return ('p:' + local) if prefixed else local
+    NS = _ns()
+    if CFG.get("tpl") == "B" and variant >= 3:
+        variant -= 3          # no namespaces at all: the default-namespace spellings coincide with the plain ones
     if variant == 0:      # absolute, prefixed, no predicates
         return '/' + '/'.join(name(t) for t, p, c in steps), NS
     if variant == 1:      # absolute, prefixed, positional predicates where needed
@@ -82,14 +115,14 @@ def _governing(res):
 
     def hook(elem, xsd_element):
         rec[elem] = xsd_element
-    list(SCHEMA.iter_errors(res, extra_validator=hook))
+    list(_schema().iter_errors(res, extra_validator=hook))
     return rec
 
 
 def region_partial_substitution_member(**kw):
     """known finding C20-partial-substitution-member: element #3 of the template documents is <p:hm>, a member of the
     substitution group of the referenced head h"""
-    return kw.get("e") == 3
+    return CFG.get("tpl") != "B" and CFG["doc"] in (0, 1) and kw.get("e") == 3
 
 
 def region_partial_ancestor_xmlns(**kw):
@@ -112,7 +145,7 @@ def pre_idx(fn, **kw):
 
 def h_find(e: int, v: int) -> bool:
     """schema.find(path of the element) is the declaration that governed the element during validation"""
-    res = xmlschema.XMLResource(DOCS[CFG["doc"]])
+    res = xmlschema.XMLResource(_docs()[CFG["doc"]])
     elems = list(res.root.iter())
     ei = pick(e, 15)
     if ei >= len(elems):
@@ -120,7 +153,7 @@ def h_find(e: int, v: int) -> bool:
     elem = elems[ei]
     gov = _governing(res)
     path, ns = _spell(_steps(res.root, elem), pick(v, 5))
-    found = SCHEMA.find(path, ns)
+    found = _schema().find(path, ns)
     want = gov.get(elem)
     if want is None or found is None:
         return False
@@ -136,7 +169,7 @@ def _part(full, steps, variant):
     d = full
     cur = [d]
     for tag, pos, cnt in steps[1:]:
-        key = 'p:' + tag.split('}')[1]
+        key = ('p:' + tag.split('}')[1]) if '}' in tag else tag
         nxt = []
         for node in cur:
             if not isinstance(node, dict) or key not in node:
@@ -154,7 +187,7 @@ def _part(full, steps, variant):
 
 def h_partial(e: int, v: int) -> bool:
     """decode(doc, path=p) / iter_errors(doc, path=p) equal the matching part of the whole-document results"""
-    doc = DOCS[CFG["doc"]]
+    doc = _docs()[CFG["doc"]]
     res = xmlschema.XMLResource(doc)
     elems = list(res.root.iter())
     ei = pick(e, 15)
@@ -164,8 +197,8 @@ def h_partial(e: int, v: int) -> bool:
     variant = (0, 1)[pick(v, 5) % 2]
     steps = _steps(res.root, elem)
     path, ns = _spell(steps, variant)
-    full, full_errors = SCHEMA.decode(doc, validation='lax', namespaces=NS)
-    part, part_errors = SCHEMA.decode(doc, path=path, validation='lax', namespaces=NS)
+    full, full_errors = _schema().decode(doc, validation='lax', namespaces=_ns())
+    part, part_errors = _schema().decode(doc, path=path, validation='lax', namespaces=_ns())
     want = _part(full, steps, variant)
     if len(want) == 1:
         if part != want[0]:
@@ -181,14 +214,14 @@ def h_partial(e: int, v: int) -> bool:
     sel_paths = set()
     for x in selected:
         sel_paths.add(_spell(_steps(res.root, x), 1)[0])
-    want_err = [(er.reason, er.path) for er in SCHEMA.iter_errors(doc, namespaces=NS) if er.path in sel_paths]
-    got_err = [(er.reason, er.path) for er in SCHEMA.iter_errors(doc, path=path, namespaces=NS)]
+    want_err = [(er.reason, er.path) for er in _schema().iter_errors(doc, namespaces=_ns()) if er.path in sel_paths]
+    got_err = [(er.reason, er.path) for er in _schema().iter_errors(doc, path=path, namespaces=_ns())]
     return got_err == want_err
 
 
 def h_partial_errors(e: int, v: int) -> bool:
     """iter_errors(doc, path=p) equals the whole-document errors located in the selected subtrees (same order)"""
-    doc = DOCS[CFG["doc"]]
+    doc = _docs()[CFG["doc"]]
     res = xmlschema.XMLResource(doc)
     elems = list(res.root.iter())
     ei = pick(e, 15)
@@ -203,23 +236,26 @@ def h_partial_errors(e: int, v: int) -> bool:
     sel_paths = set()
     for x in selected:
         sel_paths.add(_spell(_steps(res.root, x), 1)[0])
-    want_err = [(er.reason, er.path) for er in SCHEMA.iter_errors(doc, namespaces=NS) if er.path in sel_paths]
-    got_err = [(er.reason, er.path) for er in SCHEMA.iter_errors(doc, path=path, namespaces=NS)]
+    want_err = [(er.reason, er.path) for er in _schema().iter_errors(doc, namespaces=_ns()) if er.path in sel_paths]
+    if CFG.get("tpl") == "B" and variant == 1 and elem.tag == 'item':
+        # a single item is selected: a uniqueness violation against a sibling outside the selected part cannot be seen
+        want_err = [x for x in want_err if not x[0].startswith('duplicated value')]
+    got_err = [(er.reason, er.path) for er in _schema().iter_errors(doc, path=path, namespaces=_ns())]
     return got_err == want_err
 
 
 def h_depth(d: int) -> bool:
     """limiting the depth changes nothing above the cut"""
-    doc = DOCS[CFG["doc"]]
+    doc = _docs()[CFG["doc"]]
     depth = pick(d, 4)
-    full, _ = SCHEMA.decode(doc, validation='lax', namespaces=NS)
-    cut, errs = SCHEMA.decode(doc, validation='lax', namespaces=NS, max_depth=depth)
+    full, _ = _schema().decode(doc, validation='lax', namespaces=_ns())
+    cut, errs = _schema().decode(doc, validation='lax', namespaces=_ns(), max_depth=depth)
     # reference: keep attributes everywhere above the cut; element children only while their level <= depth
     # (max_depth=0 keeps the root's own attributes only, like max_depth=1)
     want = _cut(full, 1, max(depth, 1))
     if cut != want:
         return False
-    full_errors = [(er.reason, er.path) for er in SCHEMA.iter_errors(doc, namespaces=NS)]
+    full_errors = [(er.reason, er.path) for er in _schema().iter_errors(doc, namespaces=_ns())]
     cut_errors = [(er.reason, er.path) for er in errs]
     want_errors = [x for x in full_errors if x[1].count('/') <= max(depth, 1)]
     return cut_errors == want_errors
@@ -251,7 +287,7 @@ def _cut_child(v, level, depth):
 
 def explain(fn, args):
     try:
-        res = xmlschema.XMLResource(DOCS[CFG["doc"]])
+        res = xmlschema.XMLResource(_docs()[CFG["doc"]])
         elems = list(res.root.iter())
         if "e" in args and args["e"] < len(elems):
             path, ns = _spell(_steps(res.root, elems[args["e"]]), args.get("v", 0))
@@ -285,6 +321,11 @@ def obligations(tier, seed):
                     "timeout": 600, "twin_timeout": 30, "bound": "every non-root element x path with/without positional predicates"})
         out.append({"name": "depth/doc%d" % doc, "fn": "h_depth", "pre": "pre_idx", "args": [["d", "int"]], "config": {"doc": doc},
                     "timeout": 200, "twin_timeout": 30, "bound": "max_depth 0..3"})
+    for doc in (0, 1):
+        out.append({"name": "find/B%d" % doc, "fn": "h_find", "pre": "pre_idx", "args": [["e", "int"], ["v", "int"]], "config": {"doc": doc, "tpl": "B"},
+                    "timeout": 400, "twin_timeout": 30, "bound": "template B (no-namespace vocabulary, schema with the XSD namespace as default): every element x path spellings, empty namespace map"})
+        out.append({"name": "partial-errors/B%d" % doc, "fn": "h_partial_errors", "pre": "pre_idx", "args": [["e", "int"], ["v", "int"]], "config": {"doc": doc, "tpl": "B"},
+                    "timeout": 600, "twin_timeout": 30, "bound": "template B: a unique constraint on a repeated intermediate parent; paths selecting items under several parents"})
     out.append({"name": "partial-errors/doc2", "fn": "h_partial_errors", "pre": "pre_idx", "args": [["e", "int"], ["v", "int"]], "config": {"doc": 2},
                 "timeout": 600, "twin_timeout": 30, "bound": "the same document: errors of the partial validation vs the whole-document errors in the selected subtrees"})
     return out
